@@ -315,8 +315,8 @@ def install_session_hooks(ip: Interp, th: ControlTheory, with_exec_contracts=Tru
     th.hooks["ref.readline"] = readline
 
     def await_readline(st, fr, v, node):
-        st.trace.append(("readline",))
         ln = fresh("line", S)
+        st.trace.append(("readline", ln))
         return [(st, LineV(ln))]
 
     th.hooks["await:readline"] = await_readline
